@@ -177,6 +177,46 @@ func init() {
 	propPost["C18"] = postNoPanic
 }
 
+// genEveryEntry: one exact-type definition for every (message, field) entry of the profile.
+func genEveryEntry(r *rng) CaseSet {
+	cs := CaseSet{Name: "every-profile-entry"}
+	for _, m := range knownMsgs() {
+		h := hostFor(m.Num)
+		for _, f := range m.Fields {
+			pb := tcBase(f[2])
+			sz := btSize[pb]
+			if tcArray(f[2]) || pb == 0x07 {
+				sz *= f[3]
+				if sz > 255 {
+					sz = 255 / btSize[pb] * btSize[pb]
+				}
+			}
+			for arch := byte(0); arch < 2; arch++ {
+				var b recs
+				b.Write(fileIdRecs(h.ftype, arch))
+				b.def(defn{local: 1, arch: arch, global: uint16(m.Num), fields: []fdef{{byte(f[1]), byte(sz), pb}}})
+				for _, p := range payloads(r, sz, 4) {
+					b.data(1, p)
+				}
+				cs.Cases = append(cs.Cases, decCase("decode", "000", "-", "-", frame(b.Bytes(), defaultFrame())))
+			}
+		}
+	}
+	return cs
+}
+
+func init() {
+	propGens["C15"] = func(r *rng, thorough bool) ([]CaseSet, string, bool) {
+		stride := 8
+		if thorough {
+			stride = 1
+		}
+		return []CaseSet{genEveryEntry(r), genSingleField(r, stride)},
+			"every (message, field) entry of the compiled-in profile with its exact base type and size in both byte orders and four payloads, in a file type that hosts the message (the dump shows which struct field changed and to what); plus the single-field definition sweep; the tables themselves are regenerated by reflection and re-checked by the kernel (gen_wf)", true
+	}
+	propPost["C15"] = postNoPanic
+}
+
 func postC10(res *RunResult) {
 	postNoPanic(res)
 	// results must not depend on the schedule, and consumption must be exactly the frame
